@@ -119,6 +119,42 @@ func c01Enumerate(tier string, emit func(j c01Job)) {
 		}
 		return out
 	}
+	// (0) arrival order vs event time: three (thorough: four) events whose timestamps come in every order, so that
+	// blocks and segments overlap in time or lie entirely before one another
+	{
+		offs := []int64{0, 1000, 5000}
+		if tier == "thorough" {
+			offs = []int64{0, 1000, 5000, 5000}
+		}
+		var perms [][]int64
+		var rec func(cur []int64, used []bool)
+		rec = func(cur []int64, used []bool) {
+			if len(cur) == len(offs) {
+				perms = append(perms, append([]int64{}, cur...))
+				return
+			}
+			for i := range offs {
+				if !used[i] {
+					used[i] = true
+					rec(append(cur, offs[i]), used)
+					used[i] = false
+				}
+			}
+		}
+		rec(nil, make([]bool, len(offs)))
+		for _, pm := range perms {
+			evs := make([]string, len(pm))
+			for i, o := range pm {
+				evs[i] = c01Event(i, T0+o, member("a", fmt.Sprint(i)))
+			}
+			for _, b := range bounds(len(pm)) {
+				for _, c := range cards {
+					emit(c01Job{N: n, Card: c, Events: evs, Bounds: b, Class: "arrival-order"})
+					n++
+				}
+			}
+		}
+	}
 	// (1) single column `a`, all sequences of length ≤ depth over the value alphabet
 	maxd := depth
 	vd := vals
